@@ -79,6 +79,37 @@ def cert(name, parser, all_prods, sym):
                 ", ".join("true" if x in ntc else "false" for x in range(nsym))))
 
 
+RUNS = [["a", "a", "b"], ["b"], ["a", "a"], ["a", "$", "a"], ["$"], ["a", "b", "$"], ["b", "b"], ["S"], []]
+
+
+def lean_tree(t, index_of, sym, lr1):
+    if isinstance(t, lr1.Reduction):
+        return ".node %s [%s]" % (rule(t.production, sym), ", ".join(
+            lean_tree(c, index_of, sym, lr1) for c in t.children))
+    return ".leaf ⟨%d, %d⟩" % (sym(t.symbol), index_of[id(t)])
+
+
+def real_runs(name, parser, sym, lr1):
+    """The real `Parser.parse` results on a few token lists (with the end-of-input marker used
+    as a client token symbol among them), as `run` equations decided by the kernel."""
+    out = []
+    for k, w in enumerate(RUNS):
+        toks = lr1dump.make_tokens(w)
+        index_of = dict((id(t), i) for i, t in enumerate(toks))
+        res = parser.parse(toks)
+        lw = "[" + ", ".join("⟨%d, %d⟩" % (sym(x), i) for i, x in enumerate(w)) + "]"
+        if res.error is None:
+            r = ".accept (%s)" % lean_tree(res.parse_tree, index_of, sym, lr1)
+        else:
+            e = res.error
+            r = ".error %s %d %d %s" % ("none" if e.code is None else "(some %d)" % e.code, e.index, e.state,
+                                        nat_list(sorted(sym(x) for x in e.expected_tokens)))
+        out.append("-- real Parser.parse on `%s`" % " ".join(w))
+        # (rows of the generated automaton are sorted by symbol code, so `expected` comes out sorted)
+        out.append("theorem %sRun%d : run %sA 60 %s = %s := by decide" % (name, k, name, lw, r))
+    return out
+
+
 def generate():
     lr1 = lr1dump.lr1mod()
     pt = lr1dump.ptypes()
@@ -86,7 +117,8 @@ def generate():
     out = ["/-", "GENERATED by harness/translate/lr1_examples.py from the real lr1.py — do not edit.",
            "Small grammars through `Grammar(...).parser()`; `exB` is `exA` after the real",
            "cached-parser serialisation (`generate_cached_parser.as_py_source` + exec).", "-/",
-           "import Emboss.Model.Lr1Valid", "import Emboss.Model.Lr1Bisim", "namespace Emboss.Lr1.Examples", ""]
+           "import Emboss.Model.Lr1Valid", "import Emboss.Model.Lr1Bisim", "import Emboss.Model.Merr",
+           "namespace Emboss.Lr1.Examples", ""]
     for name, start, texts in EXAMPLES:
         sym, code = lr1dump.Interner(), lr1dump.Interner()
         sym(lr1.END_OF_INPUT)
@@ -108,11 +140,26 @@ def generate():
         out.append(cert(name + "C", parser, list(g.productions), sym))
         out.append("theorem %sValid : Valid %sG %sA %sC := by decide\n" % (name, name, name, name))
         if name == "ex":
+            for x in ("z",):
+                sym(x)
+            out += real_runs(name, parser, sym, lr1)
+            out.append("")
+        if name == "ex":
             # mark an error example so that Error entries and default errors occur, then
             # serialise the parser the way the shipped cached parser is produced
             parser.mark_error(lr1dump.make_tokens(["a", "a"]), None, "unexpected end")
             parser.mark_error(lr1dump.make_tokens(["b"]) + [lr1.ANY_TOKEN], lr1.ANY_TOKEN, "trailing input")
             out.append(automaton("exM", parser, list(g.productions), False, sym, code, lr1))
+            # the same two examples through the model of mark_error: the marked table must be exM
+            # (compared entry by entry and default by default; rows are dicts)
+            anyc = sym("*ANY_TOKEN*")
+            nst, nsy = len(parser.item_sets), len(sym.names)
+            out.append("def exMarks : List ErrExample :=\n  [⟨[⟨%d, 0⟩, ⟨%d, 1⟩], .eoi, %d⟩, ⟨[⟨%d, 0⟩, ⟨%d, 1⟩], .any ⟨%d, 1⟩, %d⟩]" % (
+                sym("a"), sym("a"), code("unexpected end"), sym("b"), anyc, anyc, code("trailing input")))
+            out.append("def tableOf (B : Automaton) : List (List (Option Action)) × List (Option Nat) :=\n"
+                       "  ((List.range %d).map fun s => (List.range %d).map fun a => B.entry s a,\n"
+                       "   (List.range %d).map fun s => B.defaultErrors.lookup s)" % (nst, nsy, nst))
+            out.append("theorem exMarked : (markAll exA 60 exMarks).map tableOf = some (tableOf exM) := by decide +kernel\n")
             src = generate_cached_parser.as_py_source(parser, "example_parser")
             env = {}
             exec("from compiler.front_end import lr1\nfrom compiler.util import parser_types\n" + src, env)
